@@ -127,6 +127,10 @@ class PropCheck:
         """second-phase cases derived from a first-phase answer (e.g. re-query a reported path)"""
         return []
 
+    def scale_cases(self):
+        """deterministic large-input cases (EvalProp classes with scale = True)"""
+        return []
+
     def directed_cases(self, failed_theorem):
         """enlarged search used when a proof obligation breaks"""
         return self.cases()
@@ -216,7 +220,7 @@ class PropCheck:
         # 2. proof obligations
         pr = proofs.check(self.coq_prop or self.pid, self.tier)
         # 3. correspondence and search
-        cases = self.cases()
+        cases = self.cases() + self.scale_cases()
         if not pr["ok"]:
             cases = cases + [Case("d" + c.id, c.kind, c.fields, c.meta) for c in self.directed_cases(pr)]
         res = run_both(cases)
